@@ -169,3 +169,13 @@ func SelfSignedPEM() (certPEM, keyPEM []byte) {
 	keyPEM = pem.EncodeToMemory(&pem.Block{Type: "EC PRIVATE KEY", Bytes: kb})
 	return
 }
+
+// PEMToRawB64 converts a PEM certificate to the raw-std-base64 DER form used
+// in the handshake line.
+func PEMToRawB64(certPEM []byte) string {
+	blk, _ := pem.Decode(certPEM)
+	if blk == nil {
+		return ""
+	}
+	return base64.RawStdEncoding.EncodeToString(blk.Bytes)
+}
